@@ -85,7 +85,10 @@ type neighWorld struct {
 	learned6 map[int]tcpip.LinkAddress
 	lastNS6  [3]time.Duration // when a resolution of the IPv6 neighbour was last seen starting (+1 ns; 0 = never)
 	ev       int64
+	second   bool // neighSecond is currently assigned to the interface
 }
+
+var neighSecond = tcpip.Address("\x0a\x00\x00\x4d")
 
 func (w *neighWorld) now() time.Duration { return time.Since(w.T0) }
 
@@ -231,6 +234,10 @@ func (w *neighWorld) trySend(dst tcpip.Address) {
 		ts := w.reqTimes[hop]
 		if len(ts) == 0 {
 			w.Fail("failed-without-trying", "", "Write to % x failed with no-link-address although the stack never sent a request for next hop % x", []byte(dst), []byte(hop))
+		} else if m, ok := w.latest(hop); ok && m.mac != "evicted?" && w.now()-m.at < 59*time.Second && m.at > ts[len(ts)-1] && !w.flooded {
+			// whatever a resolution came to, a mapping delivered after its last request (a late reply, an
+			// announcement, the neighbour's own request) is what the stack knows now
+			w.Fail("failed-despite-answer", "", "Write to % x failed at once with no-link-address although a mapping for next hop % x was delivered %v ago, after the last request the stack sent for it", []byte(dst), []byte(hop), w.now()-m.at)
 		} else if age := w.now() - ts[len(ts)-1]; age > 61*time.Second && !w.flooded {
 			// a failed resolution is a cached outcome like any other: it expires with its entry
 			w.Fail("expired-entry-used", "", "Write to % x failed at once with no-link-address; the last request for next hop % x was sent %v ago, so the failed outcome it reports expired (entries live 60 s) and a new resolution was due", []byte(dst), []byte(hop), age)
@@ -350,14 +357,17 @@ func (w *neighWorld) apply(s Step) {
 		k := s.A % 6
 		addr, mac := neighAddr(k), neighMAC(k, w.gen[k])
 		tgt := A4
-		switch s.B % 3 {
+		switch s.B % 4 {
 		case 1:
 			tgt = neighAddr((k + 1) % 6)
 		case 2:
 			tgt = tcpip.Address("\x0a\x00\x00\x63")
+		case 3:
+			tgt = neighSecond
 		}
 		w.Take()
-		if tgt == A4 {
+		own := tgt == A4 || (tgt == neighSecond && w.second)
+		if own {
 			w.learn(addr, mac) // requests addressed to the stack teach it the sender's mapping
 		}
 		w.arpFrom(1, mac, addr, tgt, "")
@@ -369,7 +379,10 @@ func (w *neighWorld) apply(s Step) {
 				frames = append(frames, d.F)
 			}
 		}
-		if tgt == A4 {
+		if tgt == neighSecond {
+			w.Probes["requests_for_the_second_address"]++
+		}
+		if own {
 			w.Probes["requests_for_own_address"]++
 			if len(replies) != 1 && w.Faults["link_write_error"] != w.f0 {
 				w.Probes["reply_refused_by_the_device"]++ // injected: excused
@@ -377,7 +390,7 @@ func (w *neighWorld) apply(s Step) {
 				w.Fail("request-not-answered", "", "ARP request for the stack's own address % x drew %d replies", []byte(tgt), len(replies))
 			} else {
 				r := replies[0]
-				if !bytes.Equal(r.SHA, []byte(stackMAC)) || !bytes.Equal(r.SPA, []byte(A4)) {
+				if !bytes.Equal(r.SHA, []byte(stackMAC)) || !bytes.Equal(r.SPA, []byte(tgt)) {
 					w.Fail("reply-wrong-content", "", "ARP reply says % x is at % x; the interface's link address is % x", r.SPA, r.SHA, []byte(stackMAC))
 				}
 				if !bytes.Equal(r.TPA, []byte(addr)) || !bytes.Equal(r.THA, []byte(mac)) || frames[0].DstMAC != mac {
@@ -454,6 +467,41 @@ func (w *neighWorld) apply(s Step) {
 		w.observe()
 	case "send6":
 		w.send6(s)
+	case "creconn":
+		// one socket connected to one on-link neighbour, then to another: each datagram goes to the link
+		// address of its own next hop (judged by observe, like every data frame)
+		k1, k2 := s.A%6, s.B%6
+		fresh := func(k int) bool {
+			m, ok := w.latest(neighAddr(k))
+			return ok && m.mac != "evicted?" && w.now()-m.at < 50*time.Second
+		}
+		if k1 == k2 || w.flooded || !fresh(k1) || !fresh(k2) {
+			break
+		}
+		ep, err := w.S.S.NewEndpoint(udp.ProtocolNumber, ipv4.ProtocolNumber, &waiter.Queue{})
+		must(err, "udp endpoint")
+		for _, k := range []int{k1, k2} {
+			if e := ep.Connect(tcpip.FullAddress{Addr: neighAddr(k), Port: 9000}); e != nil {
+				break
+			}
+			w.nsent++
+			ep.Write(tcpip.SlicePayload(dmPayload(w.seed, w.nsent)), tcpip.WriteOptions{})
+			w.Settle()
+		}
+		w.Probes["socket_connected_to_one_neighbour_after_another"]++
+		w.observe()
+		ep.Close()
+		w.Settle()
+	case "addr":
+		// a second address of the interface comes and goes: requests for it are answered exactly while it is assigned
+		if w.second {
+			w.S.S.RemoveAddress(1, neighSecond)
+			w.Probes["second_address_removed"]++
+		} else {
+			w.S.S.AddAddress(1, ipv4.ProtocolNumber, neighSecond)
+			w.Probes["second_address_added"]++
+		}
+		w.second = !w.second
 	case "linkfault":
 		// the device refuses the next frame(s): a refused resolution request is a lost request, no more
 		w.S.Link.FailWrites = 1 + s.A%2
@@ -571,7 +619,11 @@ func (w *neighWorld) send6(s Step) {
 
 func (w *neighWorld) next(cfg NeighCfg) Step {
 	r := w.Rng
-	switch r.Pick(8, 6, 4, 2, 8, 1, 3, 1) {
+	switch r.Pick(8, 6, 4, 2, 8, 1, 3, 1, 1, 1) {
+	case 8:
+		return Step{Op: "creconn", A: r.Intn(6), B: r.Intn(6)}
+	case 9:
+		return Step{Op: "addr"}
 	case 7:
 		return Step{Op: "linkfault", A: r.Intn(2)}
 	case 6:
@@ -581,7 +633,7 @@ func (w *neighWorld) next(cfg NeighCfg) Step {
 	case 1:
 		return Step{Op: "reply", A: r.Intn(6), B: r.Pick(5, 1), C: r.Pick(5, 1), D: int64(r.Pick(6, 2, 1))}
 	case 2:
-		return Step{Op: "request", A: r.Intn(6), B: r.Intn(3)}
+		return Step{Op: "request", A: r.Intn(6), B: r.Intn(4)}
 	case 3:
 		return Step{Op: "ns", A: r.Intn(3), B: r.Intn(2)}
 	case 4:
